@@ -712,5 +712,6 @@ func extractC13() *lean {
 	}
 	l.def("nutsIsCommittedNotFoundIsUncommitted", "Bool", c13Bool(nf), nf)
 	extractC13b(l) // request layer (c13b.go)
+	extractC13c(l) // request context + subject look-up (c13c.go)
 	return l
 }
